@@ -383,4 +383,14 @@ example : windingNumber (K := ℚ) ⟨2, 4/3⟩ [⟨0,0⟩, ⟨4,0⟩, ⟨4,3⟩
   simp [windingNumber, polyEdges, wind, area2]
   norm_num
 
+/-- … and the model (like the real code, see `corpus/C16.txt`) does accept that hexagon, with four counter-clockwise,
+area-conserving triangles of which the first and the last both contain `(2, 4/3)`: the `None, never a wrong tiling`
+clause fails for this non-simple input (KNOWN FINDING: no simplicity check). -/
+example : @triangulateEarClipping ℚ (fieldNum ℚ id) #[⟨0,0⟩, ⟨4,0⟩, ⟨4,3⟩, ⟨1,1⟩, ⟨3,1⟩, ⟨0,3⟩]
+    = some #[(3, 4, 5), (3, 5, 0), (3, 0, 1), (3, 1, 2)] := by
+  decide +kernel
+
+example : InsideTri (K := ℚ) ⟨1,1⟩ ⟨3,1⟩ ⟨0,3⟩ ⟨2, 4/3⟩ ∧ InsideTri (K := ℚ) ⟨1,1⟩ ⟨4,0⟩ ⟨4,3⟩ ⟨2, 4/3⟩ := by
+  simp only [InsideTri, area2]; norm_num
+
 end C16
